@@ -177,9 +177,27 @@ def run_app(sc, choices=None, world_hook=None):
             ws.setReconnect(runopt["set_reconnect"] / S)
         closer_thread = None
         if closer is not None and closer.get("kind") in ("time", "line"):
+            gate = [False]
+            cancelled = [False]
+            if closer["kind"] == "line":
+                kk = int(closer["k"])
+
+                def hook(rec, frame):
+                    if rec.tid == 0 and rec.lines == kk:
+                        gate[0] = True
+                        w.k.ev("closer_gate", frame.f_code.co_name, frame.f_lineno)
+
+                w.k.line_hook = hook
+
             def close_later():
+                # a close() that precedes run_forever's own initialisation is not 'during the run'
+                w.k.wait(lambda: app.keep_running or gate[0], None, "closer_waits_for_run")
                 if closer["kind"] == "time":
                     w.k.sleep(int(closer["t"]))
+                else:
+                    w.k.wait(lambda: gate[0], None, "closer_gate")
+                if cancelled[0]:
+                    return
                 w.k.ev("closer_fires")
                 try:
                     app.close()
@@ -230,6 +248,10 @@ def run_app(sc, choices=None, world_hook=None):
                 break
             if closer_thread is not None and ri == 0 and w.k.abort_reason is None:
                 try:
+                    w.k.line_hook = None
+                    if closer.get("kind") == "line" and not gate[0]:
+                        cancelled[0] = True  # the loop thread never reached line k: the closer never fires
+                        gate[0] = True
                     closer_thread.join(60)
                 except SimAbort:
                     run.aborted = w.k.abort_reason
